@@ -203,7 +203,8 @@ impl Report {
             let fname = rdir.join(format!("{}-{}.json", self.tier, n));
             let body = json!({"property": self.prop, "key": v.key, "desc": v.desc, "replay": v.replay});
             let _ = std::fs::write(&fname, serde_json::to_string_pretty(&body).unwrap());
-            println!("DETAIL property={} key={} {}", self.prop, v.key, v.desc);
+            let short: String = v.desc.chars().take(500).collect();
+            println!("DETAIL property={} key={} {}", self.prop, v.key, short);
             println!(
                 "VIOLATION property={} replay={}",
                 self.prop,
